@@ -517,6 +517,11 @@ func (s *c41Sys) apply(op *c41Op) error {
 				}
 			}
 			s.last = fmt.Sprintf("batch:%d-of-%d-accepted", nok, len(errs))
+			for _, c := range cls {
+				if c == "overflow" || c == "underpriced" || c == "future-replace-pending" {
+					s.r.Outcome("batch-member:" + c) // counted on replays too; only shows that the path is exercised
+				}
+			}
 		}
 		// cycle only ran if at least one tx passed the stateless validation; it is harmless to check limits anyway
 	case "inc":
@@ -1098,6 +1103,22 @@ func c41Scenarios() []*c41Scenario {
 		{
 			name: "finding-evictbump", cfg: c41Cfg(2, 2, 1, 1), depthQ: 4, depthT: 4,
 			ops: []string{"add:A0", "add:B0", "add:C0", "add:A0u"},
+		},
+		{
+			// churn inside ONE Add call on a full pool: batches of three whose better-priced members evict pending
+			// transactions until the per-reorg churn throttle (changesSinceReorg > GlobalSlots/4, here 0) rejects the
+			// rest of the batch; single adds of the same transactions for contrast
+			name: "churn0", cfg: c41Cfg(2, 3, 2, 1), depthQ: 2, depthT: 3,
+			init: []string{"batch:A0+A1+B0", "add:C0"},
+			ops: []string{"batch:B1+B2+B0b", "batch:B1+B2+A2", "batch:B1+A2+B2", "batch:A2+B1+B2", "batch:B1+B0b+C0b",
+				"add:B1", "add:B2", "add:B0b", "inc:A", "fee:115", "tip:105"},
+		},
+		{
+			// the same with GlobalSlots 4 (throttle after two evictions) and a five-transaction full pool
+			name: "churn1", cfg: c41Cfg(2, 4, 2, 1), depthQ: 2, depthT: 3,
+			init: []string{"batch:A0+A1+B0", "add:B1", "add:C0"},
+			ops: []string{"batch:B2+B3+B0b", "batch:B2+B3+C0b", "batch:B2+B0b+B3", "batch:B2+B3+A2", "batch:B2+B3+B0b+C0b",
+				"add:B2", "add:B3", "add:B0b", "add:C0b", "inc:A", "revert"},
 		},
 		{
 			// replacement rules in pending and queue, tip raises, inclusion of a different variant, reorg re-injection
